@@ -19,6 +19,7 @@
 -/
 import Lcapy.Model.Sources
 import Lcapy.Spec.PortRel
+import Lcapy.Generated.PortOps
 namespace Lcapy.MNA
 variable {K : Type} [Add K] [Mul K] [Neg K] [Sub K] [Div K] [OfNat K 0] [OfNat K 1] [OfNat K 2]
 
@@ -120,6 +121,81 @@ def currentGainExp (cs : List (Cpt K)) (p1 m1 p2 m2 bs : Nat) : Experiment K :=
   ⟨zProbe cs p1 m1 ++ [.V p2 m2 bs 0], .negBr bs⟩
 def transadmittanceExp (cs : List (Cpt K)) (p1 m1 p2 m2 b bs : Nat) : Experiment K :=
   ⟨vProbe cs p1 m1 b ++ [.V p2 m2 bs 0], .negBr bs⟩
+
+/-! ### the experiments as the SOURCE TEXT of netlistopsmixin.py describes them
+
+`Generated/PortOps.lean` (harness/translate/tx_portops.py) lists, for each operation, how the code makes the probed copy
+and what it measures.  `interpRow` reads one row, `buildExp` builds the experiment it describes; Props/C04Ops.lean proves
+that the seven experiments above ARE the ones built from the generated table (`experiments_from_source`). -/
+
+inductive Probe where
+  | current          -- apply_test_current_source(N1p, N1m): kill, ground at N1m, `I? N1p N1m δ(t)`
+  | voltage          -- apply_test_voltage_source(N1p, N1m): remove V sources across the pair, kill, ground, `V? N1p N1m δ(t)`
+  | voltageNoRemove  -- kill(); _add_ground(Nm); _add_test_voltage_source(Np, Nm)   (admittance)
+deriving DecidableEq, Repr
+
+inductive Meas where
+  | voc | isc | testCurrent
+deriving DecidableEq, Repr
+
+structure OpDesc where
+  probe : Probe
+  meas : Meas
+  neg : Bool
+deriving DecidableEq, Repr
+
+abbrev Row := List String × String × List String × String × List String × Bool
+
+/-- read a row of the generated table; `none` when it is not one of the probing schemes the model knows -/
+def interpRow : Row → Option OpDesc
+  | (checked, made, margs, meas, mnodes, neg) =>
+    let two := checked == ["Np", "Nm"]
+    let four := checked == ["N1p", "N1m", "N2p", "N2m"]
+    let inPair := if two then ["Np", "Nm"] else ["N1p", "N1m"]
+    let outPair := if two then ["Np", "Nm"] else ["N2p", "N2m"]
+    if !(two || four) || margs != inPair then none else
+    let probe : Option Probe :=
+      if made == "apply_test_current_source" then some .current
+      else if made == "apply_test_voltage_source" then some .voltage
+      else if made == "kill()+_add_ground(Nm)+_add_test_voltage_source" then some .voltageNoRemove
+      else none
+    let m : Option Meas :=
+      if meas == "Voc" && mnodes == outPair then some .voc
+      else if meas == "Isc" && mnodes == outPair then some .isc
+      else if meas == "I[test]" && mnodes == [] then some .testCurrent
+      else none
+    match probe, m with
+    | some p, some m => some ⟨p, m, neg⟩
+    | _, _ => none
+
+/-- the experiment a descriptor stands for: input pair (p1, m1), output pair (p2, m2), fresh branches `b` (test voltage
+    source) and `bs` (`Vshort_`) -/
+def buildExp (d : OpDesc) (cs : List (Cpt K)) (p1 m1 p2 m2 b bs : Nat) : Option (Experiment K) :=
+  let ckt0 : List (Cpt K) := match d.probe with
+    | .current => zProbe cs p1 m1
+    | .voltage => vProbe cs p1 m1 b
+    | .voltageNoRemove => killAll cs ++ [.V p1 m1 b 1]
+  match d.meas, d.neg with
+  | .voc, false => some ⟨ckt0, .dv p2 m2⟩
+  | .voc, true => none
+  | .isc, true => some ⟨ckt0 ++ [.V p2 m2 bs 0], .negBr bs⟩
+  | .isc, false => some ⟨ckt0 ++ [.V p2 m2 bs 0], .br bs⟩
+  | .testCurrent, true => (match d.probe with | .current => none | _ => some ⟨ckt0, .negBr b⟩)
+  | .testCurrent, false => (match d.probe with | .current => none | _ => some ⟨ckt0, .br b⟩)
+
+/-- the experiment the source text prescribes for the operation `name` -/
+def expFromSource (name : String) (cs : List (Cpt K)) (p1 m1 p2 m2 b bs : Nat) : Option (Experiment K) :=
+  ((Gen.PortOps.table.lookup name).bind interpRow).bind (fun d => buildExp d cs p1 m1 p2 m2 b bs)
+
+/-- what the helpers must do for `Probe.current` / `Probe.voltage` to mean what `zProbe` / `vProbe` do:
+    kill everything (sources AND initial conditions: `kill()` with no arguments), ground at Nm unless a node 0 exists,
+    a unit-impulse test source on (Np, Nm); only the voltage probe removes voltage sources across the pair first -/
+def expectedHelpers : List (String × Bool × Bool × String × String × List String × List String) :=
+  [("apply_test_current_source", true, false, "Nm", "_add_test_current_source", ["Np", "Nm"], ["kill", "ground", "source"]),
+   ("apply_test_voltage_source", true, true, "Nm", "_add_test_voltage_source", ["Np", "Nm"], ["kill", "ground", "source"])]
+
+def expectedTestSources : List (String × String) :=
+  [("_add_test_voltage_source", "V? %s %s {DiracDelta(t)}"), ("_add_test_current_source", "I? %s %s {DiracDelta(t)}")]
 
 /-- node renaming of an observation -/
 def Obs.mapNodes (ρ : Nat → Nat) : Obs → Obs
